@@ -3,6 +3,7 @@ package checks
 import (
 	"fmt"
 
+	"kverif/internal/replay"
 	"kverif/internal/smt"
 )
 
@@ -19,7 +20,10 @@ func checkC03(c *Ctx) error {
 		e := ic.Enc
 		nf, nc := e.NoFailTerm(), e.NoCancelTerm()
 		// vacuity: the all-success execution exists
-		v, _ := ic.Query(false, nf, nc, e.Returned(0))
+		v, okModel := ic.Query(c.Thorough() && len(ic.Prog.Threads) > 1, nf, nc, e.Returned(0))
+		if v == smt.Sat && okModel != nil {
+			validateModel(ic, okModel, nf, nc)
+		}
 		c.mu.Lock()
 		queries++
 		c.mu.Unlock()
@@ -85,6 +89,13 @@ func checkC03(c *Ctx) error {
 	}
 	injectorCoverage(c, st, queries)
 	c.Coverage["success_execution_infeasible"] = vacuous
+	if c.Thorough() {
+		c.Coverage["model_validation"] = map[string]any{"injectors": st.validated, "solver_schedule_realised_natively": st.modelInReality, "native_order_feasible_in_model": st.realityInModel, "failures": st.validationFail}
+		c.Coverage["traces_validated_against_impl"] = st.replayOK + st.modelInReality
+		if len(st.validationFail) > 0 {
+			return fmt.Errorf("translator validation failed: %s", st.validationFail[0])
+		}
+	}
 	if vacuous > 0 && c.Violations == 0 && len(c.Known) == 0 {
 		return fmt.Errorf("vacuity guard: %d injectors admit no all-success execution in the encoding", vacuous)
 	}
@@ -105,4 +116,64 @@ func retBeforeT(ic *InjCase, g int, t string) string {
 		ts = append(ts, "(and "+s.X+" (< "+s.C+" "+t+"))")
 	}
 	return smt.Or(ts...)
+}
+
+// validateModel keeps the concurrency stubs honest (thorough tier, a sample of
+// injectors): (model ⊆ reality) a complete success execution produced by the
+// solver is replayed on the real generated code and must be realisable and
+// return the reference value; (reality ⊆ model) the provider enter/exit order
+// observed in that native run is asserted into Φ and must be satisfiable.
+func validateModel(ic *InjCase, m map[string]string, nf, nc string) {
+	st := ic.st
+	st.mu.Lock()
+	st.validationSeen++
+	take := st.validationSeen%37 == 1 && st.validated < 16
+	if take {
+		st.validated++
+	}
+	st.mu.Unlock()
+	if !take || !ic.Ref.Valid {
+		return
+	}
+	sc := scriptFromModel(ic, m, 0)
+	rep := replay.Run(ic.pipe, ic.Item, ic.Decl, sc)
+	if rep.Err != nil || len(rep.Observations) == 0 {
+		ic.c.Inconclusive("model validation: replay failed for " + ic.Name())
+		return
+	}
+	o := rep.Observations[0]
+	okRun := o.Realised && o.Returned && (o.Err == "nil" || o.Err == "none") && o.ValueID == nativeID(ic.Ref.Result) && !rep.Race
+	// reality ⊆ model: observed order of enter/exit events
+	var order []string
+	pos := map[string]string{}
+	for _, en := range ic.Enc.Enters {
+		if ex := ic.Enc.Exits[en.Ev.Key]; ex != nil {
+			pos["enter "+en.Ev.Prov] = en.C
+			pos["exit "+en.Ev.Prov] = ex.C
+		}
+	}
+	prev := ""
+	for _, l := range o.Log {
+		cvar, ok := pos[l]
+		if !ok {
+			continue
+		}
+		if prev != "" {
+			order = append(order, "(< "+prev+" "+cvar+")")
+		}
+		prev = cvar
+	}
+	v, _ := ic.Query(false, append([]string{nf, nc, ic.Enc.Returned(0)}, order...)...)
+	st.mu.Lock()
+	defer st.mu.Unlock()
+	if okRun {
+		st.modelInReality++
+	} else {
+		st.validationFail = append(st.validationFail, fmt.Sprintf("%s: solver's success schedule not realised natively (%+v)", ic.Name(), o))
+	}
+	if v == smt.Sat {
+		st.realityInModel++
+	} else {
+		st.validationFail = append(st.validationFail, fmt.Sprintf("%s: natively observed order %v is infeasible in the model (%s)", ic.Name(), o.Log, v))
+	}
 }
